@@ -121,7 +121,7 @@ def _nontrivial(rec):
 QUICK = {"network": 2, "dirnetwork": 2, "geonetwork": 2, "interacting": 1, "resnetwork": 2, "rp": 2, "rn": 2,
          "crp": 2, "jrp": 2, "jrn": 2, "climate": 2, "climatedata": 2, "visibility": 2, "surrogates": 2,
          "tsonis": 2, "hilbert": 2, "isrn": 2, "ccn": 2, "escn": 2,
-         "spearman": 2, "partialcorr": 2, "mutualinfo": 2, "havlin": 2}
+         "spearman": 2, "partialcorr": 2, "mutualinfo": 2, "havlin": 2, "ctsonis": 2}
 THOROUGH = {k: 3 for k in QUICK}
 THOROUGH["interacting"] = 2
 
